@@ -109,6 +109,9 @@ def load(R):
                         "truthy(EFF_MB(result, None)) == (self._memory_cache is not None)",
                         "implies(self._memory_cache is not None, IS_NUM(EFF_MB(result, None)) and num_of(EFF_MB(result, None)) * 1024 * 1024 == self._memory_cache.memory_cache_bytes)",
                         "implies(self.read_only is not None, EFF_RO(result, None) == self.read_only)",
+                        # the codec is an option of the storage configuration too (StorageBackendBase.__init__ reads 'codec' / 'codecConfig'): a cluster rebuilt from
+                        # the dump must read what this one wrote
+                        "same(CFGV(result, 'codec'), CFGV(self.config, 'codec')) and same(CFGV(result, 'codecConfig'), CFGV(self.config, 'codecConfig'))",
                         "CFG_TYPED(result)"],
                labels={"dict_literals_dynamic": True})
 
